@@ -1,7 +1,7 @@
 (* C02 — an honest swarm always leads to a complete, identical download.
    Liveness over the schedules of an async runtime.  What is machine-checked here are the ingredients; the fairness
    argument that turns them into termination, and its validity for tokio's scheduler, is NOT machine-checked. *)
-From Rdest Require Import Base BCodec Consts Wire Manager MgrProofs Handler HandlerProofs Metainfo Extract ExtractProofs Tracker TrackerProofs.
+From Rdest Require Import Base BCodec Consts Wire Manager MgrProofs Handler HandlerProofs Metainfo Extract ExtractProofs Tracker TrackerProofs Stats Corr.Stats StatsProofs.
 Open Scope N_scope.
 
 (* variant: the number of pieces still to obtain never increases *)
@@ -29,8 +29,27 @@ Theorem C02_extraction_identical : forall ovf m content store, Geometry m conten
   extract Extractor_tail_from_start store ovf m = Ok (spec_files m content).
 Proof. exact extract_ok. Qed.
 
+(* no surviving connection crashes on account of its transfer statistics: for every sequence of byte counts, unexpected
+   blocks and timer ticks whose per-interval totals fit u64, with and without overflow checks, the statistics code does
+   not panic and every report is the mean of the last two intervals (clamped to u32) -- the repaired code; the pinned
+   code (sum::<u32>() of truncated values) panicked on two intervals of 2 GiB, or reported 0 in a release build *)
+Theorem C02_stats_exact : forall ovf ops, fits ops 0 0 0 ->
+  srun_with true ovf stats_new ops [] = Ok (expected ops None None 0 0 0).
+Proof. exact stats_exact_from_start. Qed.
+(* the model evaluated by the correspondence is the repaired one *)
+Theorem C02_stats_model_repaired : srun = srun_with true.
+Proof. reflexivity. Qed.
+Theorem C02_stats_pinned_refuted :
+  srun_with false true stats_new [SDown 2147483648; STick; SDown 2147483648; STick] [] = Panic /\
+  srun_with false false stats_new [SDown 2147483648; STick; SDown 2147483648; STick] [] = Ok [(Some 0, Some 0, 0)] /\
+  fits [SDown 2147483648; STick; SDown 2147483648; STick] 0 0 0.
+Proof. exact stats_pinned_refuted. Qed.
+
 Print Assumptions C02_missing_nonincreasing.
 Print Assumptions C02_pick_exists.
 Print Assumptions C02_assignment_requests.
 Print Assumptions C02_tracker_no_deadlock.
 Print Assumptions C02_extraction_identical.
+Print Assumptions C02_stats_exact.
+Print Assumptions C02_stats_pinned_refuted.
+Print Assumptions C02_stats_model_repaired.
